@@ -71,6 +71,8 @@ class Report:
 
     def finding(self, rid: str, key: str, what: str, detail=None):
         r = self.rules[rid]
+        if any(f.rule == rid and f.key == key for f in self.findings):
+            return
         r["instances"] += 1
         r["nontrivial"].add(("finding", key))
         self.findings.append(Finding(self.prop, rid, key, what, detail))
